@@ -453,37 +453,59 @@ def shrink_case(component, ops, same_class, budget=150, every_line=False):
 # Verdict + evidence
 
 def cleanup_leftovers():
-    """files of harness processes that no longer run (cases that end in a modelled panic forget their objects):
-    every harness uses a config prefix `v<letters><pid>…`; empty node directories older than a few minutes"""
+    """files of harness processes that no longer run (cases that end in a modelled panic or in a killed node forget
+    their objects): every harness uses a config prefix `v<letters><pid>…`. Removed: such files / sockets in /dev/shm, in the
+    iceoryx2 root and its `services` directory, inside the per-node directories `nodes/<node id>/`, and node
+    directories that are empty afterwards (or empty and older than a few minutes)."""
     n = 0
-    for d in ["/dev/shm", "/tmp/iceoryx2/nodes", "/tmp/iceoryx2/services"]:
+    pat = re.compile(r"v[a-z]{1,4}(\d+)")
+    alive = {}
+
+    def dead(pid):
+        if pid not in alive:
+            alive[pid] = os.path.exists(f"/proc/{pid}")
+        return not alive[pid]
+
+    def sweep(d):
+        k = 0
         try:
             names = os.listdir(d)
         except OSError:
-            continue
+            return 0
         for fn in names:
-            m = re.match(r"v[a-z]{1,4}(\d+)", fn)
-            if m and not os.path.exists(f"/proc/{m.group(1)}"):
+            m = pat.match(fn)
+            if m and dead(m.group(1)):
+                pth = os.path.join(d, fn)
                 try:
-                    pth = os.path.join(d, fn)
-                    if os.path.isdir(pth):
+                    if os.path.isdir(pth) and not os.path.islink(pth):
                         shutil.rmtree(pth, ignore_errors=True)
                     else:
                         os.unlink(pth)
+                    k += 1
+                except OSError:
+                    pass
+        return k
+
+    for d in ["/dev/shm", "/tmp/iceoryx2", "/tmp/iceoryx2/nodes", "/tmp/iceoryx2/services"]:
+        n += sweep(d)
+    now = time.time()
+    for top in ["/tmp/iceoryx2/nodes", "/tmp/iceoryx2/services"]:    # per-node directories, per-service type-definition directories
+        try:
+            subs = os.listdir(top)
+        except OSError:
+            continue
+        for fn in subs:
+            pth = os.path.join(top, fn)
+            if not (fn.isdigit() and os.path.isdir(pth)):
+                continue
+            removed = sweep(pth)
+            n += removed
+            try:
+                if removed or now - os.path.getmtime(pth) > 300:
+                    os.rmdir(pth)          # only succeeds when nothing else is left in it
                     n += 1
-                except OSError:
-                    pass
-    try:
-        now = time.time()
-        for fn in os.listdir("/tmp/iceoryx2/nodes"):
-            pth = os.path.join("/tmp/iceoryx2/nodes", fn)
-            if fn.isdigit() and os.path.isdir(pth) and now - os.path.getmtime(pth) > 300:
-                try:
-                    os.rmdir(pth); n += 1
-                except OSError:
-                    pass
-    except OSError:
-        pass
+            except OSError:
+                pass
     return n
 
 
